@@ -23,6 +23,11 @@ pub enum EvKind {
     /// g = sqrt((c - t) s) + 0.1: positive until t passes c (in the direction s = ±1), NaN afterwards — an event
     /// function with a restricted domain that never has a root
     SqrtUntil(f64, f64),
+    /// g = clamp((y[i] - c) / w, -1, 1): a saturating detector (two of them with different levels agree bit for bit
+    /// wherever both are saturated)
+    ClipY(usize, f64, f64),
+    /// g = exp(k (y[i] - c)) - 1: overflows to +inf a little above the level (k (y - c) > 709.8)
+    ExpY(usize, f64, f64),
 }
 
 #[derive(Clone, Debug)]
@@ -59,6 +64,8 @@ impl EventSpec {
                 EvKind::Cos(w) => (w * t).cos(),
                 EvKind::Sin(w) => (w * t).sin(),
                 EvKind::SqrtUntil(c, sg) => ((c - t) * sg).sqrt() + 0.1,
+                EvKind::ClipY(i, c, w) => ((y[i] - c) / w).clamp(-1.0, 1.0),
+                EvKind::ExpY(i, c, k) => (k * (y[i] - c)).exp() - 1.0,
             }
     }
     /// Lipschitz bound of g along the trajectory in t, given a bound on |y'| and |y|.
@@ -70,6 +77,9 @@ impl EventSpec {
                 EvKind::Y0Y1 => 2.0 * ymax * dymax,
                 EvKind::Cos(w) | EvKind::Sin(w) => w.abs(),
                 EvKind::SqrtUntil(_, _) => f64::INFINITY,
+                EvKind::ClipY(_, _, w) => dymax / w.abs(),
+                // near its root exp(k d) - 1 has slope k; the located point is within 1e-11 of it
+                EvKind::ExpY(_, _, k) => 2.0 * k.abs() * dymax,
             }
     }
     pub fn describe(&self) -> String {
